@@ -52,7 +52,7 @@ func checkLoopAddrEscape(c *Ctx, rule string, fns []*ssa.Function) {
 		}
 		n := 0
 		bad := ""
-		allInstrs(f, func(in ssa.Instruction) {
+		allInstrsShallow(f, func(in ssa.Instruction) {
 			st, ok := in.(*ssa.Store)
 			if !ok || !blockReentered(f, st) {
 				return
@@ -172,7 +172,7 @@ func checkNoDeadShift(c *Ctx, rule string, pkgs []string) {
 		if !inP[pkgOf(fn)] {
 			continue
 		}
-		allInstrs(fn, func(in ssa.Instruction) {
+		allInstrsShallow(fn, func(in ssa.Instruction) {
 			bo, ok := in.(*ssa.BinOp)
 			if !ok || (bo.Op != token.SHR && bo.Op != token.SHL) {
 				return
@@ -224,7 +224,7 @@ func checkLockPairing(c *Ctx, rule string, pkgs []string) {
 	n := 0
 	for _, fn := range fns {
 		ord := 0
-		allInstrs(fn, func(in ssa.Instruction) {
+		allInstrsShallow(fn, func(in ssa.Instruction) {
 			if _, isD := in.(*ssa.Defer); isD {
 				return
 			}
@@ -239,7 +239,7 @@ func checkLockPairing(c *Ctx, rule string, pkgs []string) {
 			// a deferred release registered after the lock on every path, or reachable: accept when some
 			// defer of the matching unlock is reachable from the lock and dominates... keep it simple:
 			deferred := false
-			allInstrs(fn, func(x ssa.Instruction) {
+			allInstrsShallow(fn, func(x ssa.Instruction) {
 				if d, isD := x.(*ssa.Defer); isD && isRelease(d) && (instrDominates(in, d) || instrDominates(d, in)) {
 					deferred = true
 				}
@@ -284,7 +284,7 @@ func checkNoNestedPublicCalls(c *Ctx, rule string) {
 			continue
 		}
 		kmcFns = append(kmcFns, fn)
-		allInstrs(fn, func(in ssa.Instruction) {
+		allInstrsShallow(fn, func(in ssa.Instruction) {
 			if cls, _, _, op, ok := lockOp(in); ok && op == "lock" && cls == tKMC+".mu" {
 				takesLock[fn] = true
 			}
